@@ -34,6 +34,9 @@ Record case := {
   c_input : input;
   c_full : bool;             (* no class-typed argument: the whole pipeline is modelled *)
   c_aspect : N;              (* 0 = everything but ..., 1 = ... targets inside list items vs the dump *)
+  c_fixed : N;               (* which repairs the implementation under test carries (tie/props/c15.py FIXES_APPLIED):
+                                bit 0 = fixes/C15-link-key-prefix-overlap.patch (model: build_fixed),
+                                bit 1 = fixes/C15-list-item-target-in-dump.patch (model: strip_fixed) *)
   o_build : list N;
   o_required : list key;
   o_pre : option val;
@@ -67,7 +70,9 @@ Definition options_of (x : input) : list key :=
   end.
 
 Definition judge1 (c : case) : verdict :=
-  let '(p, verdicts) := build (c_decls c) (c_links c) in
+  let '(p, verdicts) := if N.testbit (c_fixed c) 0 then build_fixed (c_decls c) (c_links c)
+                         else build (c_decls c) (c_links c) in
+  let strip := if N.testbit (c_fixed c) 1 then strip_fixed else strip in
   let accepted := select (c_links c) (o_build c) in
   let sl := map (fun l => {| s_src := l_src l; s_tgt := l_tgt l; s_fn := l_fn l |}) accepted in
   let ckeys := map d_key (filter (fun d => is_class_kind (d_kind d)) (c_decls c)) in
